@@ -923,7 +923,7 @@ func (vc *VC) sliceOp(fr *Frame, st *State, t *ssa.Slice) {
 				vc.addObl(fr, st, "within-len", "slice", Le(hi, SLen(x)), nil, t.Pos())
 			}
 		}
-		vc.defVal(fr, t, MkSlice(SBase(x), Add(SOff(x), lo), Sub(hi, lo), Sub(mx, lo)))
+		vc.defVal(fr, t, MkSlice(SBase(x), Add0(SOff(x), lo), Sub0(hi, lo), Sub0(mx, lo)))
 	case *types.Basic: // string
 		n := App(SInt, "strlen", x)
 		if has(t.High) {
